@@ -1,8 +1,134 @@
+import DeapModel.Core.CrossMut
 import Driver.Proto
-/-! Protocol handler for C09 (stub until the model is built). -/
+/-!
+Protocol handler for C09 (discrete crossovers and mutations).
+
+Requests (tokens after `C09`), lists are comma separated, `-` = empty list:
+
+* `onepoint L1 L2 cx`, `twopoint L1 L2 c1 c2`, `messy L1 L2 c1 c2` (integer genes)
+* `uniform L1 L2 indpb RS` (`indpb` and the `random()` results `RS` as float bit patterns)
+* `estwopoint G1 S1 G2 S2 c1 c2`
+* `pmx L1 L2 c1 c2`, `upmx L1 L2 indpb RS`, `ox L1 L2 a b` (natural-number genes)
+* `shuffle L indpb RS VS`, `flip L indpb RS`, `flipb L indpb RS` (Boolean genes),
+  `uniformint L LOW UP indpb RS VS` (`LOW`,`UP` = `s:<int>` or `q:<list>`), `inversion L i1 i2`
+
+Answers: the contents of the argument objects after the call followed by the ids of the returned
+objects (the arguments carry the ids 0,1,… in argument order; ES strategies 2,3);
+`reject` when the guard of the operator fails (the Python code raises / the draws are impossible);
+`bad-op` for anything malformed.
+-/
 namespace DriverC09
+open Proto CrossMut
+
+def showInts (l : List Int) : String := showList (fun (x : Int) => toString x) l
+def showNats (l : List Nat) : String := showList (fun (x : Nat) => toString x) l
+def showBools (l : List Bool) : String := showList showBool l
+
+/-- the heap holding the arguments as objects 0 and 1 -/
+def heap2 {α : Type} (l1 l2 : List α) : Heap α := fun o => if o = 0 then l1 else if o = 1 then l2 else []
+
+def answer2 {α : Type} (sh : List α → String) (f : List α → List α → List α × List α) (l1 l2 : List α) : String :=
+  let r := inPlace2 f (heap2 l1 l2) 0 1
+  sh (r.2 0) ++ " " ++ sh (r.2 1) ++ " " ++ toString r.1.1 ++ " " ++ toString r.1.2
+
+def answer1 {α : Type} (sh : List α → String) (f : List α → List α) (l : List α) : String :=
+  let r := inPlace1 f (heap2 l []) 0
+  sh (r.2 0) ++ " " ++ toString r.1
+
+def parseBound (s : String) : Option Bound :=
+  if s.startsWith "s:" then (parseInt (s.drop 2).toString).map Bound.scalar
+  else if s.startsWith "q:" then (parseList parseInt (s.drop 2).toString).map Bound.seq
+  else none
 
 def handle : List String → String
+  | ["onepoint", a, b, c] =>
+    match (do let l1 ← parseList parseInt a; let l2 ← parseList parseInt b; let cx ← parseNat c; pure (l1, l2, cx)) with
+    | some (l1, l2, cx) =>
+      if cxOnePointOk l1 l2 cx then answer2 showInts (fun x y => cxOnePoint x y cx) l1 l2 else "reject"
+    | none => "bad-op"
+  | ["twopoint", a, b, c, d] =>
+    match (do let l1 ← parseList parseInt a; let l2 ← parseList parseInt b; let c1 ← parseNat c; let c2 ← parseNat d
+              pure (l1, l2, c1, c2)) with
+    | some (l1, l2, c1, c2) =>
+      if cxTwoPointOk l1 l2 c1 c2 then answer2 showInts (fun x y => cxTwoPoint x y c1 c2) l1 l2 else "reject"
+    | none => "bad-op"
+  | ["messy", a, b, c, d] =>
+    match (do let l1 ← parseList parseInt a; let l2 ← parseList parseInt b; let c1 ← parseNat c; let c2 ← parseNat d
+              pure (l1, l2, c1, c2)) with
+    | some (l1, l2, c1, c2) =>
+      if cxMessyOnePointOk l1 l2 c1 c2 then answer2 showInts (fun x y => cxMessyOnePoint x y c1 c2) l1 l2 else "reject"
+    | none => "bad-op"
+  | ["uniform", a, b, p, r] =>
+    match (do let l1 ← parseList parseInt a; let l2 ← parseList parseInt b; let pb ← parseFloat p
+              let rs ← parseList parseFloat r; pure (l1, l2, pb, rs)) with
+    | some (l1, l2, pb, rs) =>
+      if cxUniformOk l1 l2 (decisions pb rs) then answer2 showInts (fun x y => cxUniformR x y pb rs) l1 l2 else "reject"
+    | none => "bad-op"
+  | ["estwopoint", g1, s1, g2, s2, c, d] =>
+    match (do let a1 ← parseList parseInt g1; let b1 ← parseList parseInt s1
+              let a2 ← parseList parseInt g2; let b2 ← parseList parseInt s2
+              let c1 ← parseNat c; let c2 ← parseNat d; pure (a1, b1, a2, b2, c1, c2)) with
+    | some (a1, b1, a2, b2, c1, c2) =>
+      if cxESTwoPointOk (⟨a1, b1⟩ : ESInd Int Int) ⟨a2, b2⟩ c1 c2 then
+        let hg : Heap Int := heap2 a1 a2
+        let hs : Heap Int := fun o => if o = 2 then b1 else if o = 3 then b2 else []
+        let r := inPlaceES hg hs 0 1 2 3 c1 c2
+        showInts (r.2.2.1 0) ++ " " ++ showInts (r.2.2.2 2) ++ " " ++ showInts (r.2.2.1 1) ++ " "
+          ++ showInts (r.2.2.2 3) ++ " " ++ toString r.1.1 ++ " " ++ toString r.1.2 ++ " "
+          ++ toString r.2.1.1 ++ " " ++ toString r.2.1.2
+      else "reject"
+    | none => "bad-op"
+  | ["pmx", a, b, c, d] =>
+    match (do let l1 ← parseList parseNat a; let l2 ← parseList parseNat b; let c1 ← parseNat c; let c2 ← parseNat d
+              pure (l1, l2, c1, c2)) with
+    | some (l1, l2, c1, c2) =>
+      if cxPartialyMatchedOk l1 l2 c1 c2 then answer2 showNats (fun x y => cxPartialyMatched x y c1 c2) l1 l2 else "reject"
+    | none => "bad-op"
+  | ["upmx", a, b, p, r] =>
+    match (do let l1 ← parseList parseNat a; let l2 ← parseList parseNat b; let pb ← parseFloat p
+              let rs ← parseList parseFloat r; pure (l1, l2, pb, rs)) with
+    | some (l1, l2, pb, rs) =>
+      if cxUniformPartialyMatchedOk l1 l2 (decisions pb rs) then
+        answer2 showNats (fun x y => cxUniformPartialyMatchedR x y pb rs) l1 l2 else "reject"
+    | none => "bad-op"
+  | ["ox", a, b, c, d] =>
+    match (do let l1 ← parseList parseNat a; let l2 ← parseList parseNat b; let c1 ← parseNat c; let c2 ← parseNat d
+              pure (l1, l2, c1, c2)) with
+    | some (l1, l2, c1, c2) =>
+      if cxOrderedOk l1 l2 c1 c2 then answer2 showNats (fun x y => cxOrdered x y c1 c2) l1 l2 else "reject"
+    | none => "bad-op"
+  | ["shuffle", a, p, r, v] =>
+    match (do let l ← parseList parseInt a; let pb ← parseFloat p; let rs ← parseList parseFloat r
+              let vs ← parseList parseNat v; pure (l, pb, rs, vs)) with
+    | some (l, pb, rs, vs) =>
+      if mutShuffleIndexesOk l (drawOpts pb rs vs) then answer1 showInts (fun x => mutShuffleIndexesR x pb rs vs) l
+      else "reject"
+    | none => "bad-op"
+  | ["flip", a, p, r] =>
+    match (do let l ← parseList parseInt a; let pb ← parseFloat p; let rs ← parseList parseFloat r; pure (l, pb, rs)) with
+    | some (l, pb, rs) =>
+      if mutFlipBitOk l (decisions pb rs) then answer1 showInts (fun x => mutFlipBitR x pb rs) l else "reject"
+    | none => "bad-op"
+  | ["flipb", a, p, r] =>
+    match (do let l ← parseList parseBool a; let pb ← parseFloat p; let rs ← parseList parseFloat r; pure (l, pb, rs)) with
+    | some (l, pb, rs) =>
+      if mutFlipBitOk l (decisions pb rs) then answer1 showBools (fun x => mutFlipBitR x pb rs) l else "reject"
+    | none => "bad-op"
+  | ["uniformint", a, lo, hi, p, r, v] =>
+    match (do let l ← parseList parseInt a; let low ← parseBound lo; let up ← parseBound hi; let pb ← parseFloat p
+              let rs ← parseList parseFloat r; let vs ← parseList parseInt v; pure (l, low, up, pb, rs, vs)) with
+    | some (l, low, up, pb, rs, vs) =>
+      match mutUniformIntR l low up pb rs vs with
+      | some _ =>
+        -- the mutation as a heap transformer (its result is known to be `out` at this point)
+        answer1 showInts (fun x => (mutUniformIntR x low up pb rs vs).getD x) l
+      | none => "reject"
+    | none => "bad-op"
+  | ["inversion", a, c, d] =>
+    match (do let l ← parseList parseInt a; let i1 ← parseNat c; let i2 ← parseNat d; pure (l, i1, i2)) with
+    | some (l, i1, i2) =>
+      if mutInversionOk l i1 i2 then answer1 showInts (fun x => mutInversion x i1 i2) l else "reject"
+    | none => "bad-op"
   | _ => "bad-op"
 
 end DriverC09
